@@ -4,6 +4,7 @@ From MPD Require Import Bytes Tables Show TagModel TagSpec DriverCmd DriverConn 
 From MPD Require Import Bytes Tables Show TagModel TagSpec DriverCmd DriverConn DriverFrame DriverSong.
 From MPD Require Import Bytes Tables Show TagModel TagSpec DriverCmd DriverConn DriverFrame DriverCommands.
 From MPD Require Import Bytes Tables Show TagModel TagSpec DriverCmd DriverConn DriverFrame DriverFilter.
+From MPD Require Import Bytes Tables Show TagModel TagSpec DriverCmd DriverConn DriverFrame DriverTyped.
 Open Scope N_scope.
 
 Definition find_tagv (ident : bytes) : option tagv :=
@@ -99,6 +100,8 @@ Definition dispatch (line : bytes) : bytes :=
     else if is_song_kind kind then run_songs kind args
     else if is_commands_kind kind then run_commands kind args
     else if is_filter_kind kind then run_filter kind args
+    else if is_typed_kind kind then run_typed kind args
+    else if is_typed_spec_kind kind then run_spec kind args
     else b "unknown-kind " ++ kind
   | [] => b "empty"
   end.
